@@ -83,4 +83,11 @@ PROPS = {
         'decided': 'the disassembler\'s per-atom decisions: has_oversized_sign_extension is exactly "not canonical"; ir_for_atom (keywords off) prints an atom of 1-2 bytes as a decimal integer exactly when it is canonical, as hex otherwise, and every form carries the bytes unchanged; the assembler\'s decimal route re-encodes canonically (bigint_to_bytes_clvm), so the integer route round-trips (lemma, decimal print/parse assumed inverse)',
         'not_covered': ['quoted-string escape/un-escape agreement: bounded stand-in only (E3 round trip on all 1-byte, 2304 2-byte and special 3-byte atoms, 3 positions, 3 versions); the Kani per-atom harness did not finish (HashMap + String in CBMC, 20 min) and was dropped', 'decimal and hex text conversion (assumed inverse pairs)', 'list / dot layout', 'modern printer and reader: bounded stand-in only', 'CLI path'],
     },
+    'C14': {
+        'units': ['safety', 'srcloc', 'ser', 'printer'],
+        'e3_always': ['no_panic'],
+        'e3': ['no_panic'],
+        'decided': 'absence of panics, arithmetic overflow, out-of-bounds indexing and non-termination (under the stated preconditions) in the front-end leaves under contract: Stream::read / set_seek / get_seek, IRReader::backup, Bytes accessors and concat, atom_from_stream, atom_size_blob, int_from_bytes, get_u32, Srcloc arithmetic incl. len, is_hex / is_space / is_eol, has_oversized_sign_extension, ir_for_atom',
+        'not_covered': ['the readers as wholes (parse_sexp, read_ir, sexp_from_stream): bounded stand-in only (E3 no-panic sweep, bound stated in evidence)', 'compile, run, debug, REPL, dependency listing as wholes', 'located-error clause beyond C15', 'preconditions at unverified call sites (e.g. Stream length >= 1 at IRReader::backup) are assumptions'],
+    },
 }
